@@ -33,6 +33,7 @@ def stepRO (own : Tid → Loc → Bool) (shared : Loc → Bool) (t : Tid) : Step
   | .read l => own t l || shared l
   | .write l _ => own t l
   | .writeF l _ => own t l
+  | .rmw l _ => own t l
   | _ => false
 
 /-- The discipline for threads `0 … n-1` of `p` (executable; used by the driver). -/
